@@ -53,6 +53,7 @@ fn main() {
         ("c02", "replay") => c02::replay(rest),
         ("c02", "record") => c02::record(rest),
         ("c03", "record") => c03::record(rest),
+        ("c03", "replay") => c03::replay(rest),
         ("c04", "record") => c04::record(rest),
         ("c14", "record") => c14::record(rest),
         ("session", "replay") => session::replay(rest),
